@@ -113,7 +113,7 @@ func cmpOrientation(fn *ssa.Function) (field string, asc bool, ok bool) {
 	if !ok0 || !ok1 || f0 != f1 {
 		return "", false, false
 	}
-	p0, p1 := spillParam(b0), spillParam(b1)
+	p0, p1 := spillParam(embeddedRoot(b0)), spillParam(embeddedRoot(b1))
 	switch {
 	case p0 == ssa.Value(fn.Params[0]) && p1 == ssa.Value(fn.Params[1]):
 		return f0, true, true
@@ -607,5 +607,16 @@ func ruleLimit(r *Run) {
 	}
 	if !lbad {
 		ol.OK("EvalParams.Limit -> selectLogsParams.Limit -> entryIterator.limit").At(r.pos(sl.Pos()))
+	}
+}
+
+// embeddedRoot follows FieldAddr chains of embedded structs to the variable.
+func embeddedRoot(v ssa.Value) ssa.Value {
+	for {
+		fa, ok := v.(*ssa.FieldAddr)
+		if !ok {
+			return v
+		}
+		v = fa.X
 	}
 }
